@@ -648,6 +648,7 @@ func (dc *ClientDnsConnection) SendFragmentSizeTest(fragsize uint32, timeout tim
 	req := &commands.TestDownstreamFragmentSizeRequest{
 		UserId:       dc.userId,
 		FragmentSize: fragsize,
+		Padding:      dc.fragmentProbePadding(),
 	}
 	resp, err := dc.Query(req, timeout)
 	if err != nil {
@@ -657,6 +658,24 @@ func (dc *ClientDnsConnection) SendFragmentSizeTest(fragsize uint32, timeout tim
 	} else {
 		return r, nil
 	}
+}
+
+// fragmentProbePadding returns the number of filler bytes that make a fragment size probe query as long as
+// the longest query the tunnel can send. The answer repeats the question, so a fragment size only works on a
+// size-limited path if it was probed with a question as long as the ones that carry upstream data.
+func (dc *ClientDnsConnection) fragmentProbePadding() uint32 {
+	// hostname = data + dots + "." + domain + "." may be at most HostnameMaxLen-2 characters long
+	space := util.HostnameMaxLen - 2 - len(dc.Serializer.Domain) - 2
+	chars := space
+	for chars > 0 && chars+(chars-1)/57 > space {
+		chars-- // Dotify inserts a dot after every 57 characters
+	}
+	// minus command, cache invalidation and user id; the rest is Base32 (8 characters per 5 bytes)
+	bytes := (chars - 6) * 5 / 8
+	if bytes <= 4 {
+		return 0
+	}
+	return uint32(bytes - 4)
 }
 
 func (dc *ClientDnsConnection) CheckFragmentSizeResponse(in []byte) error {
